@@ -234,6 +234,14 @@ class Calls(Interp):
 
     # ------------------------------------------------------------------ contracts at call sites
     def apply_contract(self, c, binding, callee_name):
+        saved_cm = getattr(self, "_callee_mod", None)
+        self._callee_mod = callee_name.split(":")[0] if (":" in callee_name and self.src.has_func(callee_name.split("@")[0])) else None
+        try:
+            return self._apply_contract(c, binding, callee_name)
+        finally:
+            self._callee_mod = saved_cm
+
+    def _apply_contract(self, c, binding, callee_name):
         self.used_contracts.add(c.fid)
         for fv in c.labels.get("free_vars", {}):
             if fv not in binding and fv in self.st.env:
